@@ -83,6 +83,24 @@ class Contract:
                 self.module = world.module(mod)
                 self.qualname = '.'.join(parts[i:])
                 self.fn_node = find_function(self.module, self.qualname)
+                if self.fn_node is None and self.qualname.count('.') == 1:
+                    # the class no longer defines the method itself: what
+                    # runs is the one it inherits - the contract is about
+                    # `Class.method` whoever implements it
+                    import ast as _ast
+                    cname, mname = self.qualname.split('.')
+                    try:
+                        cls = world.class_by_name(cname, self.module)
+                        owner, node = world.find_method(cls, mname)
+                    except Exception:   # noqa
+                        owner, node = None, None
+                    if isinstance(node, _ast.FunctionDef) and \
+                            owner is not None and owner.module is not None \
+                            and not isinstance(owner.module, str):
+                        self.module = owner.module
+                        self.qualname = owner.name + '.' + mname
+                        self.fn_node = node
+                        self.inherited_from = owner.name
                 if self.fn_node is None:
                     raise LookupError('function %s not found in %s' % (
                         self.qualname, mod))
